@@ -10,7 +10,7 @@ import numpy as np
 
 from auditsim import drawsim as D
 from auditsim import repo as R
-from auditsim.log import Outcome, same
+from auditsim.log import Outcome, same, tight
 
 PROP = "C05"
 TIERS = {
@@ -22,7 +22,7 @@ RULE = ("one run = one configuration (every shipped test x estimator/bet, finite
         "two futures differ at the first forked draw and the statistic moved off 1 before the cut; distinct = "
         "distinct event-log digest")
 ASSUMPTIONS = [
-    "equality of already-reported entries is bit-exact (both calls run the same arithmetic on the same prefix); NaN == NaN",
+    "already-reported entries must agree to 1e-12 relative (a refactor may reorder floating-point operations; an estimator that peeks moves them by orders of magnitude more); NaN == NaN",
     "a call that raises reports nothing; the pair is skipped and counted",
     "values lie in [0,u]; populations are not required to satisfy the null (the property is about all samples)",
 ]
@@ -172,10 +172,10 @@ def execute(case):
                     p2, h2 = tst.test(buf)
             h1 = np.asarray(h1, dtype=float)
             h2 = np.asarray(h2, dtype=float)
-            if len(h1) == len(c[1]) and any(not same(u_, v_) for u_, v_ in zip(h1, c[1])):
+            if len(h1) == len(c[1]) and any(not tight(u_, v_) for u_, v_ in zip(h1, c[1])):
                 out.violate("C05.b", path + "/shared-buffer", f"the first {k} draws evaluated in the caller's buffer give {h1[:4]}, "
                                                              f"on a fresh copy {c[1][:4]} (N={N})")
-            elif len(h2) == len(a[1]) and any(not same(u_, v_) for u_, v_ in zip(h2, a[1])):
+            elif len(h2) == len(a[1]) and any(not tight(u_, v_) for u_, v_ in zip(h2, a[1])):
                 out.violate("C05.b", path + "/shared-buffer",
                             f"after the first {k} draws were evaluated, the history of all {n} draws in the same buffer is "
                             f"{h2[:4]}..., on a fresh copy {a[1][:4]}... (N={N}); buffer changed: {not np.array_equal(buf, keep)}")
@@ -192,7 +192,7 @@ def execute(case):
             pass  # length is C11's business
         else:
             for j in range(k):
-                if not same(ha[j], hb[j]):
+                if not tight(ha[j], hb[j]):
                     out.violate("C05.a", path, f"entry {j + 1} of the history is {ha[j]!r} with future {x[k:][:4]} but "
                                                f"{hb[j]!r} with future {y[:4]} (cut after {k} draws, N={N})")
                     break
@@ -200,17 +200,17 @@ def execute(case):
     if a is not None and c is not None and len(a[1]) == n and len(c[1]) == k:
         ha, hc = a[1], c[1]
         for j in range(k - 1):
-            if not same(ha[j], hc[j]):
+            if not tight(ha[j], hc[j]):
                 out.violate("C05.b", path, f"truncating to {k} draws changed entry {j + 1} from {ha[j]!r} to {hc[j]!r} (N={N})")
                 break
         fa, fc = float(ha[k - 1]), float(hc[k - 1])
         if math.isnan(fa) or math.isnan(fc):
             ok = (math.isnan(fa) and math.isnan(fc)) or fc == 0
         else:
-            ok = fc <= fa
+            ok = fc <= fa * (1 + 1e-12) + 1e-15
         if not ok:
             out.violate("C05.b", path + "/last", f"truncating to {k} draws raised entry {k} from {fa!r} to {fc!r} (N={N})")
-        elif not same(fa, fc):
+        elif not tight(fa, fc):
             out.probe("truncation lowered the k-th entry")
     # C05.c  alternative / bet applied to draw j ignores draws j, j+1, ...
     for label, fn, used in (("estim", tst.estim, cfg["test"] == "ALPHA_MART"),
@@ -223,7 +223,7 @@ def execute(case):
             continue
         out.ev(label, [float(v).hex() if not math.isnan(v) else "nan" for v in ea[: k + 1]])
         for j in range(min(k + 1, len(ea), len(eb))):
-            if not same(ea[j], eb[j]):
+            if not tight(ea[j], eb[j]):
                 out.violate("C05.c", f"{name}/{cfg['mode']}/{label}",
                             f"{label} for draw {j + 1} is {ea[j]!r} with future {x[k:][:4]} but {eb[j]!r} with future "
                             f"{y[:4]} (the first {k} draws are identical)")
